@@ -30,7 +30,9 @@ ASSUMPTIONS = ['documents are judged with Python\'s html.parser and a delimiter-
                'None and multi-line names are outside the quantifier']
 
 TOKENS = ['</script>', '</div>', '}}', ' --> ', '$src', '${gantt_data}', '<!--', '-->', '{{', '))', '((', '<b>', '&lt;', '&amp;', '":"', "'", '\\',
-          '</SCRIPT>', '<div>', '$', '$$', ':', ';', '#', '%', '=', '[x]', '|', ', ', 'id_1, 01.01.2026 00:00', 'section Z', '"}}', '\\"']
+          '</SCRIPT>', '<div>', '$', '$$', ':', ';', '#', '%', '=', '[x]', '|', ', ', 'id_1, 01.01.2026 00:00', 'section Z', '"}}', '\\"',
+          # an HTML tokenizer ends a script element at "</script" + blank, "/" or ">" in any letter case
+          '</script >', '</SCRIPT  >', '</script/>', '</Script\t>', '</script foo="1">', '<script>', '<!--<script>', '</style>', '</textarea >', '</title>']
 WORDS = ['Design', 'build', 'Тест', 'naïve', '测试', 'a', 'B2', 'x y']
 name_st = st.lists(st.one_of(st.sampled_from(WORDS), st.sampled_from(WORDS), st.sampled_from(TOKENS)), min_size=1, max_size=4).map(' '.join) | \
     st.lists(st.one_of(st.sampled_from(WORDS), st.sampled_from(TOKENS)), min_size=1, max_size=3).map(''.join)
